@@ -8,7 +8,7 @@ from ..terms import A, C, F, V, L, NIL, call, conj, TRUE, CUT, show_program, sho
 
 ID = 'C04'
 LEVEL = 'model_checking'
-RULE = ('(g) deep suspended queries: len/2 on lists of dA x dB x dC elements (quick: 1 x 2 x 1 depths 100..350 calls, thorough: 4 x 4 x 3 depths 50..400) by three actors - two that stay suspended that deep after their first answer, one that runs to the end - in every merge order of their 5 steps, on three engines and on one: each actor gives the answers it gives alone (a suspended query occupies no stack and no budget of another); (f) engines that come and go: 30 rounds of an engine with a Python predicate, a script and facts that is used, dropped and collected, followed by 40 new engines that must each be pristine; (e) what a process does first: every sequence of <= 4 events over {A loads, A queries, A clears, B loads, B queries}, each in a process of its own forked from a zygote that never resolved a call, where B\'s predicates are named like A\'s registrations are filed (step_1, pair_2, ext_n, once_1): afterwards both engines give exactly their own answers; (a) two engines, generator level: every ordered pair of actor scripts from a menu of 21 incl. one that asserts with ONE Atom object (made by whichever of the two engines needs it first) as predicate name on both engines and two with fact tables of 40 and 300 facts looked up by key (+3 scripts that register ONE shared function object - inferred, with an explicit arity, as unbound and as bound method - paired with each other and with the registering scripts) (create engine, retractall / retract of predicates the engine does not know yet, load '
+RULE = ('(g) deep suspended queries: len/2 on lists of dA x dB x dC elements (quick: 1 x 2 x 1 depths 100..350 calls, thorough: 3 x 3 x 2 depths 100..350) by three actors - two that stay suspended that deep after their first answer, one that runs to the end - in every merge order of their 5 steps, on three engines and on one: each actor gives the answers it gives alone (a suspended query occupies no stack and no budget of another); (f) engines that come and go: 30 rounds of an engine with a Python predicate, a script and facts that is used, dropped and collected, followed by 40 new engines that must each be pristine; (e) what a process does first: every sequence of <= 4 events over {A loads, A queries, A clears, B loads, B queries}, each in a process of its own forked from a zygote that never resolved a call, where B\'s predicates are named like A\'s registrations are filed (step_1, pair_2, ext_n, once_1): afterwards both engines give exactly their own answers; (a) two engines, generator level: every ordered pair of actor scripts from a menu of 21 incl. one that asserts with ONE Atom object (made by whichever of the two engines needs it first) as predicate name on both engines and two with fact tables of 40 and 300 facts looked up by key (+3 scripts that register ONE shared function object - inferred, with an explicit arity, as unbound and as bound method - paired with each other and with the registering scripts) (create engine, retractall / retract of predicates the engine does not know yet, load '
         'script with overwrite on/off, assert_fact, register_function, clear, atom, start/next/close of a query or a '
         'retract) x ALL merge orders of their steps (with disjoint vocabularies and, for scripts that clear or intern atoms, with the same atom names on both engines); (b) one engine: every pair (and every triple from a subset) of '
         'side-effect-free queries over disjoint variables (recursion, cut, if-then-else, negation, \\=, once, findall, '
@@ -601,7 +601,7 @@ def generations():
 # elements, first answer taken (suspended dA / dB calls deep), later exhausted; C: len/2 on dC elements run to
 # the end in one step - in EVERY merge order of their steps, for every triple of depths, on three engines and on one.
 DEEP_SRC = 'len([], z).\nlen([_|T], s(N)) :- len(T, N).\n'
-DEEP = {'quick': ([350], [100, 300], [100]), 'thorough': ([100, 200, 300, 400], [50, 150, 250, 350], [100, 300, 400])}
+DEEP = {'quick': ([350], [100, 300], [100]), 'thorough': ([150, 250, 350], [100, 200, 300], [100, 300])}
 
 
 def _deep_depth(t):
